@@ -4,7 +4,9 @@ from vlib.symx import Violation, assume, native, pick, reached
 
 CONFORM = ['absent', 'returns-None', 'returns-value', 'returns-falsy', 'raises-RuntimeError',
            'raises-AttributeError-in-call', 'raises-TypeError-in-call', 'getattr-raises-ValueError',
-           'getattr-raises-AttributeError']
+           'getattr-raises-AttributeError',
+           # the same behaviours reached through the instance __dict__ / a class __getattr__ instead of a class attribute
+           'instance-returns-None', 'instance-returns-value', 'instance-raises-RuntimeError', 'dunder-getattr-returns-value']
 HOOK = ['None', 'value', 'falsy', 'raises']
 CUSTOM = ['absent', 'returns-None', 'returns-value', 'returns-falsy', 'raises', 'calls-super',
           'inherited-plain', 'inherited-with-other-interfacemethod']
@@ -85,14 +87,17 @@ def run_case(case):
 
     class Ob:
         pass
-    ck = CONFORM[conform]
+    ck_full = CONFORM[conform]
+    ck = ck_full.replace('instance-', '').replace('dunder-getattr-', '')
+    where = 'instance' if ck_full.startswith('instance-') else ('getattr' if ck_full.startswith('dunder-getattr-') else 'class')
+    conform_fn = None
     if ck in ('getattr-raises-ValueError', 'getattr-raises-AttributeError'):
         def getter(self):
             log.append('conform-get')
             raise (ValueError if ck == 'getattr-raises-ValueError' else AttributeError)('conform')
         Ob.__conform__ = property(getter)
     elif ck != 'absent':
-        def __conform__(self, iface):
+        def conform_fn(iface):
             log.append('conform-call')
             if iface is not I:
                 raise AssertionError('conform called with %r' % (iface,))
@@ -108,10 +113,21 @@ def run_case(case):
                 raise AttributeError('inside conform')
             if ck == 'raises-TypeError-in-call':
                 raise TypeError('inside conform')
-        Ob.__conform__ = __conform__
+        if where == 'class':
+            def __conform__(self, iface):
+                return conform_fn(iface)
+            Ob.__conform__ = __conform__
+        elif where == 'getattr':
+            def __getattr__(self, name):
+                if name == '__conform__':
+                    return conform_fn
+                raise AttributeError(name)
+            Ob.__getattr__ = __getattr__
     if provided:
         Ob = implementer(I)(Ob)
     ob = Ob()
+    if where == 'instance':
+        ob.__conform__ = conform_fn
 
     def mkhook(i, kind):
         def hook(iface, obj):
@@ -212,7 +228,7 @@ def run_case(case):
             got = ('raise', type(e).__name__)
     finally:
         zi.adapter_hooks[:] = saved
-    desc = dict(conform=ck, provided=bool(provided), hooks=[HOOK[k] for k in hooks], custom=CUSTOM[custom],
+    desc = dict(conform=ck_full, provided=bool(provided), hooks=[HOOK[k] for k in hooks], custom=CUSTOM[custom],
                 alternate=ALT[alt], entry=ENTRY[entry])
     same = (got[0] == expected[0]) and (got[1] is expected[1] if got[0] == 'ret' else got[1] == expected[1])
     if not same:
@@ -311,7 +327,7 @@ HARNESSES = [
             tiers=dict(quick=dict(budget_s=90, parts=12, params=dict(max_hooks=2)),
                        thorough=dict(budget_s=900, parts=16, params=dict(max_hooks=3))),
             encoded=_ENC,
-            bounds='__conform__ behaviour (9 kinds incl. raising AttributeError/TypeError inside the call and raising property) x '
+            bounds='__conform__ behaviour (13 kinds incl. raising AttributeError/TypeError inside the call, raising property, and __conform__ found in the instance __dict__ or through a class __getattr__) x '
                    'provided x hook lists of length <=2 (3) over {None, value, falsy value, raises} x custom __adapt__ (8 kinds incl. '
                    'inherited ones) x alternate {absent, object, None} x entry {I(obj[,alt]), I.__adapt__(obj)}; both builds',
             outside='security proxies; __conform__ as an unbound method of a class used as the object (the documented TypeError trick)',
